@@ -219,6 +219,30 @@ func GenWorkspace(t *rapid.T, cfg GenConfig) *Workspace {
 			} else {
 				p.name = name + "." + ver
 			}
+			// sometimes a sibling version of an earlier package: directories such as x/v1 and x/v1beta1 share a
+			// string prefix without one containing the other
+			if i > 0 && g.pct("siblingversion", 30) {
+				q := pkgs[g.intn("siblingof", 0, i-1)]
+				if j := strings.LastIndex(q.name, "."); j > 0 && strings.HasPrefix(q.name[j+1:], "v") {
+					stem := q.name[:j]
+					for _, v := range []string{"v1", "v1beta1", "v2", "v1alpha2", "v2beta1", "v3"} {
+						if cfg.Styled && strings.ContainsAny(v, "ab") {
+							continue
+						}
+						taken := false
+						for _, r := range pkgs {
+							if r.name == stem+"."+v {
+								taken = true
+							}
+						}
+						if !taken {
+							p.name = stem + "." + v
+							p.mod = q.mod
+							break
+						}
+					}
+				}
+			}
 		} else {
 			p.name = name
 		}
@@ -687,14 +711,22 @@ func (g *gen) fillMessage(f *File, m *Message, full string) {
 			}
 		}
 		// options
-		if fld.TypeKind == "scalar" && fld.MapKey == "" && isProto2ish(f.Syntax) && fld.Label == LabelOptional && !cfg.Styled && g.pct("default", 20) {
-			fld.Options = append(fld.Options, Option{"default", defaultFor(fld.Type, g.intn("defval", 1, 9))})
+		is64 := fld.Type == "int64" || fld.Type == "uint64" || fld.Type == "sint64" || fld.Type == "fixed64" || fld.Type == "sfixed64"
+		if fld.TypeKind == "scalar" && fld.MapKey == "" && isProto2ish(f.Syntax) && fld.Label == LabelOptional && !cfg.Styled && (g.pct("default", 20) || (is64 && g.pct("default64", 40))) {
+			def := defaultFor(fld.Type, g.intn("defval", 1, 9))
+			if big, ok := BigDefaults[fld.Type]; ok && g.pct("bigdefault", 60) {
+				def = big[g.intn("bigdefaultidx", 0, len(big)-1)]
+			}
+			fld.Options = append(fld.Options, Option{"default", def})
 		}
 		if fld.MapKey == "" && fld.TypeKind != "group" && g.pct("jsonname", 10) {
 			fld.Options = append(fld.Options, Option{"json_name", `"` + strings.ReplaceAll(fld.Name, "_", "") + `Json"`})
 		}
 		if g.pct("deprecated", 5) {
 			fld.Options = append(fld.Options, Option{"deprecated", "true"})
+		}
+		if f.Syntax == Editions && fld.TypeKind == "message" && fld.MapKey == "" && !strings.HasPrefix(fld.Type, ".google.protobuf.") && g.pct("delimited", 25) {
+			fld.Options = append(fld.Options, Option{"features.message_encoding", "DELIMITED"})
 		}
 		if fld.TypeKind == "scalar" && fld.MapKey == "" && (fld.Type == "int64" || fld.Type == "uint64" || fld.Type == "fixed64" || fld.Type == "sfixed64" || fld.Type == "sint64") && g.pct("jstype", 15) {
 			fld.Options = append(fld.Options, Option{"jstype", []string{"JS_STRING", "JS_NUMBER"}[g.intn("jstypev", 0, 1)]})
@@ -762,6 +794,15 @@ func zeroFirst(in []*typeInfo) []*typeInfo {
 		}
 	}
 	return out
+}
+
+// BigDefaults are defaults near the limits of the 64-bit types (neighbouring values collapse when converted to float64).
+var BigDefaults = map[string][]string{
+	"int64":    {"9223372036854775807", "9223372036854775806", "9223372036854775805", "-9223372036854775808", "-9223372036854775807"},
+	"sint64":   {"9223372036854775807", "9223372036854775806", "-9223372036854775808", "-9223372036854775807"},
+	"sfixed64": {"9223372036854775807", "9223372036854775806", "9007199254740993", "9007199254740992"},
+	"uint64":   {"18446744073709551615", "18446744073709551614", "18446744073709551613", "9007199254740993", "9007199254740992"},
+	"fixed64":  {"18446744073709551615", "18446744073709551614", "9007199254740993", "9007199254740992"},
 }
 
 func defaultFor(typ string, n int) string {
